@@ -50,7 +50,11 @@ def start_states():
     # the truth lives in its own file; a second file of the truth's kind is also named for another kind
     shared2 = [{"config": "shared2", "truth_kind": t, "class": c, "extra": e}
                for t in ("function", "argparse_function") for c in ("v1", "missing") for e in ("nodef", "K", "T", "K+T", "T+K")]
-    return plain + shared + method + layout + shared2
+    # paths spelled ~/file; a method name spelled with blanks around the dot
+    tilde = [dict(zip(pj.KINDS, combo), config="plain", tilde=True) for combo in itertools.product(("missing", "nodef", "v1", "v2"), repeat=3)
+             if combo.count("missing") <= 1]
+    blanks = [dict(m, name_blanks=True) for m in method if m["class"] == "v1"]
+    return plain + shared + method + layout + shared2 + tilde + blanks
 
 
 def setup_project(root, start):
@@ -58,6 +62,7 @@ def setup_project(root, start):
     cfg = start.get("config", "plain")
     if cfg == "plain":
         P = pj.Project(root)
+        P.tilde = bool(start.get("tilde"))
         for k in pj.KINDS:
             st = start[k]
             P.write(k, None if st == "missing" else pj.prestate_text(k, st, "v1"))
@@ -84,6 +89,7 @@ def setup_project(root, start):
         P.write(k, text)
         return P
     P = pj.Project(root, method_of="Trainer")
+    P.name_blanks = bool(start.get("name_blanks"))
     P.write("class", None if start["class"] == "missing" else pj.render("class", start["class"]))
     P.write("argparse_function", None if start["argparse_function"] == "missing" else pj.render("argparse_function", start["argparse_function"]))
     f = start["function"]
@@ -164,7 +170,7 @@ class C10(core.Check):
         sites = []
         transitions = 0
         left_at_cap = 0
-        start_s = ",".join("%s=%s" % (k if k in ("config", "both", "extra", "truth_kind") else pj.SHORT[k], v) for k, v in sorted(case["start"].items()))
+        start_s = ",".join("%s=%s" % (k if k in ("config", "both", "extra", "truth_kind", "tilde", "name_blanks") else pj.SHORT[k], v) for k, v in sorted(case["start"].items()))
         cfg = case["start"].get("config", "plain")
         while frontier:
             snap, depth, path = frontier.popleft()
@@ -183,6 +189,8 @@ class C10(core.Check):
                     ev_s = "sync(%s,{%s})" % (pj.SHORT[truth], "".join(pj.SHORT[k] for k in kinds))
                     pre_abs = abstract(P)
                     facts = {"event": ev_s, "pre": pre_abs, "history": len(path), "config": cfg}
+                    if case["start"].get("tilde") or case["start"].get("name_blanks"):
+                        facts["spelling"] = "tilde" if case["start"].get("tilde") else "blanks"
                     exc, rep, out = P.sync(truth, kinds, "api")
                     post = P.snapshot()
                     transitions += 1
